@@ -538,6 +538,18 @@ class Result(JsonSerializable):
         --------
         create
         """
+        # Numpy scalars (and 0-d arrays) are converted to the equivalent
+        # Python numbers. Otherwise the sums below would be computed in
+        # the type of the first provided value and, for instance, np.int8
+        # or np.int32 values (or totals) would silently overflow, while
+        # np.float32 values would be accumulated in single precision.
+        if isinstance(value, np.generic) or (isinstance(value, np.ndarray)
+                                             and value.ndim == 0):
+            value = value.item()
+        if isinstance(total, np.generic) or (isinstance(total, np.ndarray)
+                                             and total.ndim == 0):
+            total = total.item()
+
         self.num_updates += 1
 
         # xxxxxxxxxxxxxxxxxxxxxxxxxxxxxxxxxxxxxxxxxxxxxxxxxxxxxxxxxxxxxxxxx
